@@ -423,7 +423,7 @@ fn c11_c12(which: &str) {
     let fmt = |t: time::OffsetDateTime, off: (i8, i8), frac: bool| { let o = time::UtcOffset::from_hms(off.0, off.1, 0).unwrap(); let mut t = t.to_offset(o); if !frac { t = t.replace_nanosecond(0).unwrap(); } t.format(&Rfc3339).unwrap() };
     let offs = [(0i8, 0i8), (5, 0), (-8, 0), (23, 59), (-23, -59), (1, 30)];
     let past = [time::Duration::seconds(2), time::Duration::hours(1), time::Duration::hours(7), time::Duration::days(400), time::Duration::days(365 * 40)];
-    let fut = [time::Duration::seconds(60), time::Duration::hours(1), time::Duration::hours(7), time::Duration::days(400), time::Duration::days(365 * 1000)];
+    let fut = [time::Duration::seconds(900), time::Duration::hours(1), time::Duration::hours(7), time::Duration::days(400), time::Duration::days(365 * 1000)];
     let mut cases: Vec<(String, bool)> = vec![]; // (json value text, must_accept) for exp; reversed for nbf
     for o in offs { for fr in [false, true] { for d in past { cases.push((format!("\"{}\"", fmt(now - d, o, fr)), false)); } for d in fut { cases.push((format!("\"{}\"", fmt(now + d, o, fr)), true)); } } }
     let bad = ["12345", "true", "false", "[1]", "{\"a\":1}", "\"\"", "\" \"", "\"garbage\"", "\"2019-01-01\"", "0", "1.5", "[]", "{}", "4102444800", "99999999999", "1e12", "-1", "\"4102444800\""];
@@ -436,11 +436,12 @@ fn c11_c12(which: &str) {
         }
         for b in bad { let (t, key) = v4tok(&format!("{{\"{claim}\":{b}}}")); if PasetoParser::<V4, Local>::default().parse(lk(&t), key).is_ok() { return wit(format!("{which} default PasetoParser accepts a token whose {claim} is present but not an RFC 3339 timestamp: {{\"{claim}\":{b}}}")); } }
         // one parser, one token, parsed before and after the instant passes: the verdict must follow the clock
-        { let soon = fmt(now + time::Duration::milliseconds(2500), (0, 0), true); let (t, key) = v4tok(&format!("{{\"{claim}\":\"{soon}\"}}"));
-          let mut p = PasetoParser::<V4, Local>::default(); let first = p.parse(lk(&t), key).is_ok();
-          let wait = (now + time::Duration::milliseconds(3200)) - time::OffsetDateTime::now_utc(); if wait.is_positive() { std::thread::sleep(std::time::Duration::from_millis(wait.whole_milliseconds() as u64)); }
+        { let t0 = time::OffsetDateTime::now_utc(); let soon = fmt(t0 + time::Duration::milliseconds(4000), (0, 0), true); let (t, key) = v4tok(&format!("{{\"{claim}\":\"{soon}\"}}"));
+          let mut p = PasetoParser::<V4, Local>::default(); let first = p.parse(lk(&t), key).is_ok(); let in_time = time::OffsetDateTime::now_utc() < t0 + time::Duration::milliseconds(3500);
+          let wait = (t0 + time::Duration::milliseconds(4700)) - time::OffsetDateTime::now_utc(); if wait.is_positive() { std::thread::sleep(std::time::Duration::from_millis(wait.whole_milliseconds() as u64)); }
           let second = p.parse(lk(&t), key).is_ok(); let want = if claim == "exp" { (true, false) } else { (false, true) };
-          if (first, second) != want { return wit(format!("{which} one PasetoParser<V4,Local>, token with {claim} = now+2.5s parsed before and after that instant: accepted = ({first},{second}) but must be {want:?}")); } }
+          // (only judged when the first parse demonstrably happened before the instant: a loaded machine must not produce a false witness)
+          if in_time && (first, second) != want { return wit(format!("{which} one PasetoParser<V4,Local>, token with {claim} = now+4s parsed before and after that instant: accepted = ({first},{second}) but must be {want:?}")); } }
         for ok in ["{}", "{\"x\":1}", &format!("{{\"{claim}\":null}}")] { let (t, key) = v4tok(ok); if let Err(e) = PasetoParser::<V4, Local>::default().parse(lk(&t), key) { return wit(format!("{which} default PasetoParser rejects a token without {claim}: {ok} -> {e}")); } }
     }
 }
